@@ -80,6 +80,7 @@ class Controller:
         self.hits = []
         self.procs = []
         self.auto_points = None  # callable(hit) -> b'c' | b'x' | None (None = hold)
+        self.tick_hook = None    # callable() run at the end of every pump
 
     # ------------------------------------------------------------------ environment
     def env(self, points=None, children=True):
@@ -104,7 +105,7 @@ class Controller:
         p = subprocess.Popen(argv, cwd=cwd, env=env, stdout=subprocess.PIPE, stderr=subprocess.PIPE,
                              stdin=subprocess.DEVNULL if stdin is None else stdin,
                              start_new_session=True)
-        self.scratch.pgids.add(p.pid)
+        self.scratch.popens.append(p)
         pr = Proc(name, p)
         for f, which in ((p.stdout, "out"), (p.stderr, "err")):
             os.set_blocking(f.fileno(), False)
@@ -115,6 +116,8 @@ class Controller:
 
     def kill(self, pr, sig=signal.SIGKILL, group=False):
         self.log("kill", proc=pr.name, sig=int(sig))
+        if pr.code is not None or pr.p.poll() is not None:
+            return  # already reaped: the pid may have been reused, never signal it
         try:
             if group:
                 os.killpg(pr.p.pid, sig)
@@ -165,6 +168,8 @@ class Controller:
                 if rc is not None:
                     pr.code = rc
                     pr.exit_seq = self.log("proc_exit", proc=pr.name, code=rc)
+        if self.tick_hook is not None:
+            self.tick_hook()
         # a process can exit while an orphan still holds its pipes: poll regardless after a while
         for pr in self.procs:
             if pr.code is None and pr.open_pipes > 0:
@@ -282,6 +287,10 @@ class Controller:
 
     # ------------------------------------------------------------------ teardown
     def close(self):
+        try:
+            self.pump(0)  # process pending EOFs so that `gone` children are not signalled
+        except Exception:
+            pass
         for pr in self.procs:
             if pr.p.poll() is None:
                 try:
